@@ -1,8 +1,9 @@
 SPECIFICATION Spec
 CONSTANT Budget = 3
 CONSTANT MaxField = 2
+CONSTANT NegControl = FALSE
+CONSTANT Rich = FALSE
 VIEW View
 INVARIANT OracleAccepts
 INVARIANT OracleRejects
-INVARIANT Inv
 CHECK_DEADLOCK FALSE
